@@ -286,7 +286,7 @@ func (vc *VC) callInner(fr *Frame, instr ssa.Instruction, c *ssa.CallCommon, st 
 			}
 		}
 	}
-	if spec != nil && !spec.Inline {
+	if spec != nil && !spec.Inline && !forceOpaque {
 		var names []string
 		origin := callee
 		if callee.Origin() != nil {
@@ -1979,6 +1979,22 @@ func (vc *VC) intrinsic(fr *Frame, instr ssa.Instruction, callee *ssa.Function, 
 	case "sort.Slice", "sort.SliceStable":
 		return vc.sortSlice(fr, instr, args, st)
 	default:
+		// cmp.Compare[T]: the Go specification of the three-way comparison (for floats: NaN sorts first and equals NaN)
+		if strings.HasPrefix(full, "cmp.Compare[") && len(args) == 2 {
+			vc.uses["intrinsic cmp.Compare (Go specification incl. NaN ordering)"] = true
+			a, b := vc.valTerm(args[0]), vc.valTerm(args[1])
+			rt := callee.Signature.Results().At(0).Type()
+			if bt, ok := args[0].Typ.Underlying().(*types.Basic); ok {
+				switch {
+				case bt.Info()&types.IsFloat != 0:
+					return Val{T: fmt.Sprintf("(f.cmp %s %s)", a, b), Typ: rt}, true
+				case bt.Info()&types.IsString != 0:
+					return Val{T: fmt.Sprintf("(ite (str.< %s %s) (- 1) (ite (str.< %s %s) 1 0))", a, b, b, a), Typ: rt}, true
+				case bt.Info()&types.IsInteger != 0:
+					return Val{T: fmt.Sprintf("(ite (< %s %s) (- 1) (ite (> %s %s) 1 0))", a, b, a, b), Typ: rt}, true
+				}
+			}
+		}
 		return Val{}, false
 	}
 	vc.uses["intrinsic "+full] = true
